@@ -34,7 +34,7 @@ def units(tier, seed):
     maxp = 5 if tier == "quick" else 6
     for n in range(1, maxp + 1):
         perms = list(itertools.permutations(range(n)))
-        for dt in ("str", "ordered", "unordered"):
+        for dt in ("str", "ordered", "unordered", "tuple-levels"):
             for i in range(0, len(perms), 24):
                 u.append([{"k": "levels", "perm": list(p), "dtype": dt} for p in perms[i : i + 24]])
     for f in POOL:
@@ -127,16 +127,19 @@ def check_levels(case, acc):
     n = len(base)
     problems = []
 
+    passed = {"lv": tuple(lv) if case.get("dtype") == "tuple-levels" else lv}  # (the closure below must not capture `lv` itself)
+
     def design(formula):
         acc.calls += 1
         acc.traces += 1
-        dm = design_matrices(formula, df, extra_namespace={"lv": lv})
+        dm = design_matrices(formula, df, extra_namespace=passed)
         return list(dm.common.as_dataframe().columns), np.asarray(dm.common.design_matrix, dtype=float)
 
     def ind(l):
         return np.array([1.0 if v == l else 0.0 for v in col])
 
-    for call, kind in (("C(v, levels=lv)", "t"), ("T(v, levels=lv)", "t"), ("C(v, Treatment, levels=lv)", "t"), ("S(v, levels=lv)", "s"), ("C(v, Sum, levels=lv)", "s")):
+    for call, kind in (("C(v, levels=lv)", "t"), ("T(v, levels=lv)", "t"), ("C(v, Treatment, levels=lv)", "t"), ("S(v, levels=lv)", "s"), ("C(v, Sum, levels=lv)", "s"),
+                       ("C(S(v), levels=lv)", "s"), ("C(C(v, Sum), levels=lv)", "s"), ("C(T(v), levels=lv)", "t"), ("C(C(v), levels=lv)", "t")):
         # full coding: one indicator per level in the order given
         labs, X = design(f"y ~ 0 + {call}")
         if kind == "t":
